@@ -340,6 +340,7 @@ def faults_from(trace, with_errors=True):
     out.append(('crash_drop', e['i']))
     if with_errors:
       out.append(('error', e['i']))
+      out.append(('interrupt', e['i']))   # Ctrl-C: a KeyboardInterrupt unwinds through the library's handlers
       if e['kind'] == 'net':
         out.append(('conn_error', e['i']))  # a transient network failure (ConnectionError family), not a plain OSError
     if e['kind'] == 'write' and e['nbytes']:
@@ -396,7 +397,7 @@ def download(case):
         res = ('ok', p, req.gets, [e for e in inj.trace if e['kind'] == 'write'])
       except Crash:
         res = ('crash',)
-      except (InjectedIOError, ConnectionError):
+      except (InjectedIOError, ConnectionError, KeyboardInterrupt):
         res = ('ioerror',)
       return res, inj.trace
 
@@ -443,7 +444,7 @@ def decompress(case):
         res = ('ok', p, [e for e in inj.trace if e['kind'] in ('write', 'lzma')])
       except Crash:
         res = ('crash',)
-      except InjectedIOError:
+      except (InjectedIOError, KeyboardInterrupt):
         res = ('ioerror',)
       return res, inj.trace
 
@@ -626,7 +627,7 @@ def cifar_convert(case):
             res = ('ok-unvalidated', str(e)[:80])
       except Crash:
         res = ('crash',)
-      except InjectedIOError:
+      except (InjectedIOError, KeyboardInterrupt):
         res = ('ioerror',)
       return res, inj.trace
     if 'expect' not in case:
